@@ -585,6 +585,7 @@ type sop struct {
 	A, B           uint32 // arguments (element masks)
 	RetAdd, RetDel uint32
 	Full           bool // RetAdd/RetDel are the complete applied mutations
+	Inherited      bool // a write to the source of a DerivedSet: what it applies to the derived set is not returned
 }
 
 type scb struct {
@@ -672,6 +673,11 @@ func runSet(rng *rand.Rand) (viols []viol, st runStats) {
 	slowP := rng.Intn(3)
 	withReplace := rng.Intn(2) == 0
 	preload := rng.Intn(2) == 0
+	derived := rng.Intn(3) == 0
+	if derived {
+		U = 2 + rng.Intn(3) // tiny universe: both write paths hit the same elements
+	}
+	var srcPlans [][]setStep
 	st.shape = fmt.Sprintf("set/w%d/s%d/replace%v/slow%d", W, S, withReplace, slowP)
 	rmask := func() uint32 { return (rng.Uint32() & (1<<uint(U) - 1)) << 1 } // elements 1..U
 	relem := func() uint32 { return 1 << uint(1+rng.Intn(U)) }
@@ -702,6 +708,29 @@ func runSet(rng *rand.Rand) (viols []viol, st runStats) {
 			plans[w] = append(plans[w], stp)
 		}
 	}
+	if derived {
+		st.shape += "/derived"
+		for w, n := 0, 1+rng.Intn(2); w < n; w++ {
+			var pl []setStep
+			for k := 0; k < nOps; k++ {
+				stp := setStep{Kind: []string{"add", "delete", "apply", "replace"}[rng.Intn(4)], Yield: rng.Intn(4)}
+				if stp.Kind == "replace" && !withReplace {
+					stp.Kind = "add"
+				}
+				switch stp.Kind {
+				case "add", "delete":
+					stp.A = relem()
+				case "apply":
+					stp.A = rmask() & rmask()
+					stp.B = rmask() & rmask() &^ stp.A
+				case "replace":
+					stp.A = rmask()
+				}
+				pl = append(pl, stp)
+			}
+			srcPlans = append(srcPlans, pl)
+		}
+	}
 	tailSteps := make([]setStep, 1+rng.Intn(2))
 	for i := range tailSteps {
 		tailSteps[i] = setStep{Kind: "toggle", A: relem()}
@@ -722,7 +751,17 @@ func runSet(rng *rand.Rand) (viols []viol, st runStats) {
 
 	var initial uint32
 	var set reactive.Set[int]
-	if preload {
+	var src reactive.Set[int] // derived mode: the set under test is a DerivedSet written directly AND through its source
+	if derived {
+		src = reactive.NewSet[int]()
+		if preload {
+			initial = rmask()
+			src.AddAll(setOf(initial))
+		}
+		ds := reactive.NewDerivedSet[int]()
+		ds.InheritFrom(src)
+		set = ds
+	} else if preload {
 		initial = rmask()
 		set = reactive.NewSet[int](setOf(initial).ToSlice()...)
 	} else {
@@ -732,7 +771,7 @@ func runSet(rng *rand.Rand) (viols []viol, st runStats) {
 	var pn panics
 	start := make(chan struct{})
 	var wg sync.WaitGroup
-	wlogs := make([][]sop, W+1) // last: tail writes by the main goroutine
+	wlogs := make([][]sop, W+1+len(srcPlans)) // W: tail writes by the main goroutine; then the writers of the source
 	exec := func(w int, g uint64, stp setStep) sop {
 		o := sop{Kind: stp.Kind, W: w, G: g, A: stp.A, B: stp.B, Full: true}
 		o.Call = tick()
@@ -785,6 +824,33 @@ func runSet(rng *rand.Rand) (viols []viol, st runStats) {
 			}
 		}(w)
 	}
+	for i := range srcPlans {
+		wg.Add(1)
+		go func(i int) {
+			defer wg.Done()
+			defer pn.guard("source writer")
+			g := gdump.GoID()
+			<-start
+			for _, stp := range srcPlans[i] {
+				yield(stp.Yield)
+				o := sop{Kind: "inherited-" + stp.Kind, W: W + 1 + i, G: g, A: stp.A, B: stp.B, Inherited: true}
+				o.Call = tick()
+				switch stp.Kind {
+				case "add":
+					src.Add(bits.TrailingZeros32(stp.A))
+				case "delete":
+					src.Delete(bits.TrailingZeros32(stp.A))
+				case "apply":
+					src.Apply(ds.NewSetMutations[int]().WithAddedElements(setOf(stp.A)).WithDeletedElements(setOf(stp.B)))
+				case "replace":
+					src.Replace(setOf(stp.A))
+				}
+				o.Ret = tick()
+				wlogs[W+1+i] = append(wlogs[W+1+i], o)
+				progress.Add(1)
+			}
+		}(i)
+	}
 	sublogs := make([][]*ssub, S)
 	for s := 0; s < S; s++ {
 		wg.Add(1)
@@ -821,6 +887,9 @@ func runSet(rng *rand.Rand) (viols []viol, st runStats) {
 		}
 	}()
 	st.add("redundant_unsubscribe_calls", int(redundantUnsubs.Swap(0)))
+	for i := range srcPlans {
+		st.add("inherited_writes_racing_direct_writes", len(wlogs[W+1+i]))
+	}
 	final := maskOf(set)
 	if len(pn.rec) > 0 {
 		viols = append(viols, viol{"set/panic", "panic inside a reactive.Set operation: " + pn.rec[0].Value, pn.rec})
@@ -839,7 +908,7 @@ func runSet(rng *rand.Rand) (viols []viol, st runStats) {
 
 	// ---- exact model in single-writer runs
 	modelAfter := map[*sop]uint32{}
-	if W == 1 {
+	if W == 1 && !derived {
 		cur := initial
 		for _, o := range ops {
 			before := cur
@@ -984,7 +1053,7 @@ func runSet(rng *rand.Rand) (viols []viol, st runStats) {
 					ok = false
 					break
 				}
-				if !op.Full && cb.Del&^op.RetDel != 0 {
+				if !op.Full && !op.Inherited && cb.Del&^op.RetDel != 0 {
 					bad("set/replace/callback-deletes-more-than-returned", fmt.Sprintf("Replace returned %s but reported deleted=%s", mstr(op.RetDel), mstr(cb.Del)))
 					ok = false
 					break
@@ -1003,7 +1072,7 @@ func runSet(rng *rand.Rand) (viols []viol, st runStats) {
 				eff := o.RetAdd|o.RetDel != 0
 				if !o.Full {
 					eff = false
-					if W == 1 {
+					if W == 1 && !derived {
 						eff = o.RetDel != 0 // Replace that removed something
 					}
 				}
@@ -1345,6 +1414,176 @@ func runEvent(rng *rand.Rand) (viols []viol, st runStats) {
 	return
 }
 
+// ============================================================== teardown barrier (scripted, gated)
+
+// gate parks the goroutine that delivers an update inside an earlier subscriber, so that the update is "in flight":
+// the value is stored and the callback list collected, later callbacks have not been invoked yet.
+type gate struct {
+	armed   atomic.Bool
+	entered chan struct{}
+	release chan struct{}
+}
+
+func newGate() *gate { return &gate{entered: make(chan struct{}), release: make(chan struct{})} }
+
+func (g *gate) pass() {
+	if g.armed.CompareAndSwap(true, false) {
+		close(g.entered)
+		<-g.release
+	}
+}
+
+var teardownKinds = []string{"onupdate", "set-onupdate", "ontrigger", "inheritfrom", "derivedvariable-unsubscribe", "derivevaluefrom-teardown", "derivedset-inheritfrom"}
+
+// runTeardown: 1-3 goroutines call the SAME teardown function while an update is in flight (its writer is parked in
+// a gate). Whether a call has returned or is blocked is decided structurally (goroutine snapshots). After calls have
+// returned, updates of the other inputs are issued. Rule: no callback of the torn-down subscription (for derived
+// constructs: no recomputation / no change of the target) STARTS after any teardown call has returned. Only calls
+// that returned are used.
+func runTeardown(rng *rand.Rand) (viols []viol, st runStats) {
+	kind := teardownKinds[rng.Intn(len(teardownKinds))]
+	K := 1 + rng.Intn(3)
+	if kind == "derivedset-inheritfrom" {
+		K = 1 // its teardown also removes the source's elements; calling it twice is outside the statement
+	}
+	st.shape = fmt.Sprintf("teardown/%s/k%d", kind, K)
+	var mu sync.Mutex
+	var subjTicks []uint64
+	subj := func() {
+		t := tick()
+		mu.Lock()
+		subjTicks = append(subjTicks, t)
+		mu.Unlock()
+	}
+	g := newGate()
+	var write, teardown func()
+	var other []func()
+	value := func() int { return 0 }
+	switch kind {
+	case "onupdate":
+		v := reactive.NewVariable[int]()
+		v.OnUpdate(func(_, _ int) { g.pass() })
+		teardown = v.OnUpdate(func(_, _ int) { subj() })
+		v.OnUpdate(func(_, _ int) {})
+		write = func() { v.Set(1) }
+		other = []func(){func() { v.Set(2) }, func() { v.Compute(func(c int) int { return c + 1 }) }}
+	case "set-onupdate":
+		set := reactive.NewSet[int]()
+		set.OnUpdate(func(ds.SetMutations[int]) { g.pass() })
+		teardown = set.OnUpdate(func(ds.SetMutations[int]) { subj() })
+		write = func() { set.Add(1) }
+		other = []func(){func() { set.Add(2) }, func() { set.Delete(1) }}
+	case "ontrigger":
+		e := reactive.NewEvent()
+		e.OnTrigger(g.pass)
+		teardown = e.OnTrigger(subj)
+		write = func() { e.Trigger() }
+		other = []func(){func() { e.Trigger() }, func() { e.Set(true) }}
+	case "inheritfrom":
+		src, t := reactive.NewVariable[int](), reactive.NewVariable[int]()
+		src.OnUpdate(func(_, _ int) { g.pass() })
+		teardown = t.InheritFrom(src)
+		t.OnUpdate(func(_, _ int) { subj() })
+		write = func() { src.Set(1) }
+		other = []func(){func() { src.Set(2) }, func() { src.Set(0) }}
+		value = t.Get
+	case "derivedvariable-unsubscribe", "derivevaluefrom-teardown":
+		in1, in2 := reactive.NewVariable[int](), reactive.NewVariable[int]()
+		d := reactive.NewDerivedVariable2[int](func(_ int, a, b int) int { subj(); return 100*a + b }, in1, in2)
+		d.OnUpdate(func(_, _ int) { g.pass() }) // the in-flight update is parked inside the derived variable's own notification
+		teardown = d.Unsubscribe
+		if kind == "derivevaluefrom-teardown" {
+			teardown = reactive.NewVariable[int]().DeriveValueFrom(d)
+		}
+		write = func() { in1.Set(1) }
+		other = []func(){func() { in2.Set(7) }, func() { in1.Set(2) }, func() { in2.Set(0) }}
+		value = d.Get
+	case "derivedset-inheritfrom":
+		sa := reactive.NewSet[int]()
+		D := reactive.NewDerivedSet[int]()
+		sa.OnUpdate(func(ds.SetMutations[int]) { g.pass() })
+		teardown = D.InheritFrom(sa)
+		D.OnUpdate(func(ds.SetMutations[int]) { subj() })
+		write = func() { sa.Add(1) }
+		other = []func(){func() { sa.Add(2) }, func() { sa.Delete(1) }}
+		value = func() int { return int(maskOf(D)) }
+	}
+	g.armed.Store(true)
+	W := gdump.NewActor("writer")
+	U := gdump.NewActor("other-writer")
+	T := make([]*gdump.Actor, K)
+	for i := range T {
+		T[i] = gdump.NewActor(fmt.Sprintf("teardown-%d", i))
+	}
+	closeAll := func() {
+		for _, a := range append([]*gdump.Actor{W, U}, T...) {
+			a.Close()
+		}
+	}
+	if W.Do(write) != gdump.Blocked {
+		st.add("teardown_gate_not_reached", 1)
+		closeAll()
+		return
+	}
+	rets := make([]atomic.Uint64, K)
+	for i := range T {
+		T[i].Start(func() { teardown(); rets[i].Store(tick()) })
+	}
+	early := 0
+	for i := range T {
+		if T[i].Settle() == gdump.Returned {
+			early++
+		}
+	}
+	st.add("teardown_calls_with_update_in_flight", K)
+	st.add("teardown_calls_returned_while_update_in_flight", early)
+	if early > 0 { // updates of the other inputs, issued after a teardown call has returned
+		U.Start(func() {
+			for _, f := range other {
+				f()
+			}
+		})
+		U.Settle()
+	}
+	close(g.release)
+	for _, a := range append([]*gdump.Actor{W, U}, T...) {
+		if a.Settle() != gdump.Returned {
+			return []viol{{"teardown/" + kind + "/blocked-for-ever", "after the in-flight update was released, goroutine " + a.Name + " stays blocked", nil}}, st
+		}
+		if p := a.TakePanic(); p != "" {
+			closeAll()
+			return []viol{{"teardown/" + kind + "/panic", "panic in " + a.Name + ": " + p, nil}}, st
+		}
+	}
+	closeAll()
+	// every teardown call has returned: further updates of all inputs must reach nothing
+	snapshot := value()
+	for _, f := range other {
+		f()
+	}
+	st.ops = 1 + 2*len(other)
+	st.subs, st.nontrivial = 1, true
+	var minR uint64
+	for i := range rets {
+		if r := rets[i].Load(); minR == 0 || r < minR {
+			minR = r
+		}
+	}
+	mu.Lock()
+	defer mu.Unlock()
+	st.callbacks = len(subjTicks)
+	det := map[string]any{"kind": kind, "teardown_callers": K, "returned_while_update_in_flight": early, "first_teardown_return_tick": minR, "subject_start_ticks": subjTicks, "value_when_all_teardowns_returned": snapshot, "value_at_end": value()}
+	for _, t := range subjTicks {
+		if t > minR {
+			return []viol{{"teardown/" + kind + "/callback-started-after-teardown-returned", fmt.Sprintf("%s: %d goroutines called the same teardown while an update was in flight; a callback / recomputation of the torn-down subscription started at tick %d although a teardown call had returned at tick %d", kind, K, t, minR), det}}, st
+		}
+	}
+	if value() != snapshot {
+		return []viol{{"teardown/" + kind + "/value-changed-after-teardown", fmt.Sprintf("%s: the derived value changed from %d to %d after every teardown call had returned", kind, snapshot, value()), det}}, st
+	}
+	return
+}
+
 // ============================================================== driver
 
 func runOne(scenario string, rng *rand.Rand) ([]viol, runStats) {
@@ -1355,6 +1594,8 @@ func runOne(scenario string, rng *rand.Rand) ([]viol, runStats) {
 		return runSet(rng)
 	case "event":
 		return runEvent(rng)
+	case "teardown":
+		return runTeardown(rng)
 	}
 	panic("unknown scenario " + scenario)
 }
@@ -1410,7 +1651,7 @@ func child(c *vf.Ctx) {
 	}
 }
 
-var scenarios = []string{"var", "set", "event"}
+var scenarios = []string{"var", "set", "event", "teardown"}
 
 func run(c *vf.Ctx) {
 	if c.Replay != "" {
@@ -1436,13 +1677,16 @@ func run(c *vf.Ctx) {
 	}
 	c.SetRule("one evaluation = one run: a fresh reactive Variable / Set / Event driven by 1-4 seeded writer goroutines (Set, Compute, DefaultTo, Init, writes arriving through InheritFrom/DeriveValueFrom, readers holding Variable.Read; on events every write method with true and false around and after Trigger; Add, Delete, AddAll, DeleteAll, Apply, Compute, Replace; Trigger) racing with 1-6 goroutines that subscribe and unsubscribe at seeded points (with/without triggerWithInitialZeroValue, slow callbacks; unsubscribe functions are called 1-3 times, redundant calls sequentially or from other goroutines), followed by tail writes after all subscription activity, checked after join against the writers' own chain / returned mutations / exact single-writer model; runs are distinct by construction (run seed); distinct_nontrivial counts runs in which at least one OnUpdate/OnTrigger call overlapped (by logical ticks) a value-changing write")
 	total := c.Pick(20000, 600000)
-	share := map[string]int{"var": total * 45 / 100, "set": total * 45 / 100, "event": total * 10 / 100}
+	share := map[string]int{"var": total * 41 / 100, "set": total * 41 / 100, "event": total * 10 / 100, "teardown": total * 8 / 100}
 	chunk := c.Pick(500, 6000)
 	var jobs []job
 	for _, scn := range scenarios {
 		n := share[scn]
 		// two thirds plain (runtime dead-lock detector), one third -race (race detector + snapshot rule)
 		nPlain := n * 2 / 3
+		if scn == "teardown" {
+			nPlain = n // scripted with structural blocked/returned decisions: needs a process without the snapshot monitor's timer
+		}
 		for s := 0; s < n; s += chunk {
 			k := min(chunk, n-s)
 			jobs = append(jobs, job{Scenario: scn, Start: s, N: k, Race: s >= nPlain, MaxRestarts: 3})
@@ -1461,6 +1705,8 @@ func run(c *vf.Ctx) {
 	c.Require("handoff_windows", max(10, c.Pick(20, 500)*par/4))
 	c.Require("runs_race_build", total/5)
 	c.Require("redundant_unsubscribe_calls", total/2)
+	c.Require("teardown_calls_with_update_in_flight", total/20)
+	c.Require("inherited_writes_racing_direct_writes", total/2)
 	c.Require("writes_without_returned_previous_value", total/10) // Init / InheritFrom / DeriveValueFrom as writers
 	c.Require("event_false_writes_after_trigger", total/10*5)     // every write method with false after Trigger (6 per event run)
 	c.Require("nontrivial", max(100, c.Pick(300, 10000)*par/4))
